@@ -15,10 +15,13 @@ var Vocab = []string{"|", "(", ")", "[", "]", ",", ";", ".", "=", "==", "!=", "=
 	"not", "isnull", "isnotnull", "iff", "iif", "strcat", "tolower", "toupper", "now", "countif", "sum", "min", "max",
 	"!", "0x", "\"u", "'", "`", "\\", "//c\n", "#", "\xff", "é", "\x00", "1e", "..", "barchart", "title",
 	// malformed or run-together number spellings
-	"0.1.2", "0..5", "1..2", "1.2.3", "0x1g", "1e5e5", "5.e", "..5", "00.0.0", "1.e1.e1", "0x", "0xx1", "1_000"}
+	"0.1.2", "0..5", "1..2", "1.2.3", "0x1g", "1e5e5", "5.e", "..5", "00.0.0", "1.e1.e1", "0x", "0xx1", "1_000",
+	// unusual runes: BOM, replacement character, runes whose low byte is ASCII white space, 4-byte runes, Unicode spaces
+	"\ufeff", "\ufffd", "\u2020", "\u0420", "\u010d", "三", "😊", "\u00a0", "\u2003", "\r", "\r\n", "\v", "\f",
+	"0x000000000000000ff", "0x10000000000000000", "`let`", "`$left`", "`count()`"}
 
 // Hostile bytes for byte-level mutation.
-var hostileBytes = []byte{'\'', '"', '`', '\\', '/', '-', '*', ';', '(', ')', '[', ']', ' ', 0, '\n', '\t', 0xff, 0xc3, '!', '=', '~', '|', ',', '.', '0', 'x', 'e', '$', '_'}
+var hostileBytes = []byte{'\'', '"', '`', '\\', '/', '-', '*', ';', '(', ')', '[', ']', ' ', 0, '\n', '\t', '\r', 0xff, 0xc3, 0xef, 0xbb, 0xbf, 0xbd, 0xe2, 0x80, 0xa0, '!', '=', '~', '|', ',', '.', '0', 'x', 'e', '$', '_'}
 
 // Lexemes splits a source into its lexemes (by the reference tokenizer).
 func Lexemes(s string) []string {
@@ -131,6 +134,18 @@ type Named struct {
 
 func rep(s string, n int) string { return strings.Repeat(s, n) }
 
+func itoa(i int) string {
+	if i == 0 {
+		return "0"
+	}
+	var b []byte
+	for i > 0 {
+		b = append([]byte{byte('0' + i%10)}, b...)
+		i /= 10
+	}
+	return string(b)
+}
+
 // Patho returns the pathological families scaled to about size bytes.
 func Patho(size int) []Named {
 	n := size
@@ -233,6 +248,41 @@ func Patho(size int) []Named {
 	add("badutf8", "T | where "+rep("\xff", fit("\xff")))
 	add("nul", "T | where "+rep("\x00", fit("\x00")))
 	add("kind-spam", "T | join "+rep("kind=inner ", fit("kind=inner "))+"(B) on k")
+	// malformed but structured nestings (no generator of valid programs makes these)
+	k = half("(", ",1)")
+	add("tuple-nest-left", "T | where x == "+rep("(", k)+"1"+rep(",1)", k))
+	k = half("(1,", ")")
+	add("tuple-nest-right", "T | where x == "+rep("(1,", k)+"1"+rep(")", k))
+	k = half("f(", ",1)")
+	add("call-args-nest", "T | where "+rep("f(", k)+"1"+rep(",1)", k))
+	k = half("x in ((", "),1)")
+	add("in-tuple-nest", "T | where "+rep("x in ((", k)+"1"+rep("),1)", k))
+	k = half("[", ",1]")
+	add("bracket-list-nest", "T | where a"+rep("[", k)+"1"+rep(",1]", k))
+	k = half("-(", "+1)")
+	add("sign-arith-nest", "T | extend y = "+rep("-(", k)+"x"+rep("+1)", k))
+	k = half("-abs(1+", ")")
+	add("sign-call-nest", "T | extend y = "+rep("-abs(1+", k)+"x"+rep(")", k))
+	k = half("not(a==", ")")
+	add("not-eq-nest", "T | where "+rep("not(a==", k)+"b"+rep(")", k))
+	k = half("iff(", ",1,2)")
+	add("iff-cond-nest", "T | where "+rep("iff(", k)+"a"+rep(",1,2)", k)+" == 1")
+	k = half("strcat(", ",'a')")
+	add("strcat-nest", "T | where "+rep("strcat(", k)+"s"+rep(",'a')", k)+" == ''")
+	k = half("a[", "]+1")
+	add("index-arith-nest", "T | where "+rep("a[", k)+"1"+rep("]+1", k))
+	add("let-chain", "let a0 = 1;"+func() string {
+		var sb strings.Builder
+		for i := 1; sb.Len() < n; i++ {
+			sb.WriteString("let a" + itoa(i) + " = a" + itoa(i-1) + " + 1;")
+		}
+		return sb.String()
+	}()+"T | where a1 > 0")
+	add("string-open-bs-cr", "T | where a == \"abc\\\r")
+	add("string-open-bs-crlf", "T | where a == 'abc\\\r\n| count")
+	add("crlf-lines", rep("T | where a == 1 // c\r\n;", fit("T | where a == 1 // c\r\n;")))
+	add("bom-start", "\ufeffT | count")
+	add("bom-everywhere", rep("\ufeff;", fit("\ufeff;")))
 	return out
 }
 
